@@ -793,6 +793,26 @@ class Evaluator:
             except Unsupported:
                 continue
             found.append((rname, parts))
+        if not found:
+            # no exact record: a heterogeneous-dict record (fixed fields + `_rest`) whose fixed
+            # fields are all among the keys and whose rest accepts the remaining entries
+            for rname, flds in T.RECORDS.items():
+                if '__rest__' not in flds:
+                    continue
+                fixed = [f for f in flds if f != '__rest__']
+                if not fixed or not set(fixed) <= set(keys):
+                    continue
+                rest_ty = flds['__rest__']
+                try:
+                    parts = {k: coerce(v, flds[k]).term for k, v in zip(keys, vs) if k in fixed}
+                    rest = empty_dict(rest_ty)
+                    for k, kv, v in zip(keys, ks, vs):
+                        if k not in fixed:
+                            rest = dict_store(rest, coerce(kv, rest_ty[1]).term, coerce(v, rest_ty[2]).term)
+                except Unsupported:
+                    continue
+                parts['__rest__'] = rest.term
+                found.append((rname, parts))
         if len(found) != 1:
             raise Unsupported("heterogeneous dict literal (no unique matching record type declared)")
         rname, parts = found[0]
